@@ -112,7 +112,7 @@ MemoFold(sig, es, i, m, ev) ==
              at == "@" \o ToString(i)
              shape == IF HasQuiet(cc) THEN e.out = None ELSE IsPair(e.out) /\ e.out[2][1] = Bind(sig, cc) IN
          IF ~Valid(sig, cc) THEN "spec_invalid_call"
-         ELSE IF HasBad(cc) THEN (IF e.out = Raises("ValueError") /\ e.evals > ev THEN MemoFold(sig, es, i + 1, m, e.evals)
+         ELSE IF HasBad(cc) THEN (IF e.out = Raises(FailClass(cc)) /\ e.evals > ev THEN MemoFold(sig, es, i + 1, m, e.evals)
                                   ELSE "transparent_call" \o at)
          ELSE IF ~shape THEN "transparent_call" \o at
          ELSE IF e.out = r.out /\ e.evals = r.evals THEN MemoFold(sig, es, i + 1, r.memo, r.evals)
